@@ -81,6 +81,12 @@ theorem reference_accepts_every_instance (sc : Schema) (mt : Meta) (σ : Subst) 
   | nil => rw [h] at hm; simp at hm
   | cons _ _ => rfl
 
+/-- both directions in one statement: on a well-typed tree in parser normal form the reference matcher has a result
+**exactly when** the code is a syntactic instance of the pattern under some substitution of well-typed code -/
+theorem reference_decides_instance (sc : Schema) (mt : Meta) (p g : V) (wg : wtv sc g = true) (ng : nf g = true) :
+    isInstance mt p g Data.empty = true ↔ ∃ σ, GoodSubst sc σ ∧ Inst mt σ p g :=
+  isInstance_iff sc mt p g wg ng
+
 /-- what the engine's matcher accepts, the reference matcher accepts -/
 theorem engine_within_reference (mt : Meta) (p g : V) (d d' : Data) (h : matchV mt p g d = some d') :
     d' ∈ allV mt p g d := matchV_sub mt p g d d' h
